@@ -360,3 +360,29 @@ def product_pairs(total_lo, total_hi, count, a_range, b_range, tag=""):
         b = min(b_range[1], max(b_range[0], -(-t // a)))
         out.append((a, b))
     return out
+
+
+# ---------------------------------------------------------------------------
+# narrow integer containers (added after the audits of round 6, DESIGN 8.6): raw digitiser counts arrive as int16 / int32
+# arrays; a library that keeps computing in that dtype wraps around in sums, differences, squares and in abs() of the most
+# negative value.  narrow_int() turns a float record into such a container that uses the dtype's FULL range.
+
+NARROW_DTYPES = ("int16", "int32", "int8")
+
+
+def narrow_int(a, dtype="int16", extreme=True):
+    """(container, exact float64 values) - the record scaled to the full range of `dtype` and rounded; with `extreme` the
+    most negative sample is the dtype's minimum (the one value whose abs() does not exist in the dtype).  A record without
+    negative samples keeps its sign pattern (no sample is made negative)."""
+    info = np.iinfo(dtype)
+    a = np.asarray(a, dtype=float)
+    peak = float(np.max(np.abs(a))) if a.size else 0.0
+    if peak > 0:
+        q = np.round(a * (float(info.max) / peak))
+    else:
+        q = np.zeros_like(a)
+    q = np.clip(q, info.min, info.max)
+    if extreme and a.size and np.min(q) < 0:
+        q[int(np.argmin(q))] = info.min
+    c = np.array(q, dtype=dtype)
+    return c, np.array(c, dtype=float)
